@@ -192,3 +192,39 @@ Proof.
     with (Qsum (map (fun '(p0, _) => if true then p0 else 0) d)).
   rewrite IH; [reflexivity|]. intros p' a' Hin. apply (Hall p' a'). now right.
 Qed.
+
+(* ------------------------------------------------------------------ *)
+(* Reflection: decide [all_out_r] by enumerating every draw with concrete values. *)
+Fixpoint check_all {A} (P : A -> bool) (m : prog A) : bool :=
+  match m with
+  | Ret a => P a
+  | Unif k f => forallb (fun i => check_all P (f (N.of_nat i))) (seq 0 (N.to_nat k))
+  | Unif8 k f => forallb (fun i => check_all P (f (N.of_nat i))) (seq 0 (N.to_nat k))
+  | Bern _ f => check_all P (f true) && check_all P (f false)
+  | BernRatio _ _ f => check_all P (f true) && check_all P (f false)
+  | Bit f => check_all P (f true) && check_all P (f false)
+  | Choose ws f => forallb (fun i => check_all P (f i)) (seq 0 (length ws))
+  | ChooseAcc cs f => forallb (fun i => check_all P (f (Some i))) (seq 0 (length cs)) && check_all P (f None)
+  | BernF _ _ f => check_all P (f true) && check_all P (f false)
+  | TrailOnes f => forallb (fun i => check_all P (f (N.of_nat i))) (seq 0 65)
+  | BernX _ _ f => check_all P (f true) && check_all P (f false)
+  end.
+
+Theorem check_all_sound {A} (P : A -> bool) (m : prog A) :
+  check_all P m = true -> all_out_r (fun a => P a = true) m.
+Proof.
+  induction m as [a|n f IH|n f IH|q f IH|x y f IH|f IH|ws f IH|cs f IH|lo hi f IH|f IH|sure q f IH];
+    cbn [check_all all_out_r]; intros H.
+  - exact H.
+  - intros i Hi. rewrite forallb_forall in H. rewrite <- (N2Nat.id i). apply IH, H, in_seq. lia.
+  - intros i Hi. rewrite forallb_forall in H. rewrite <- (N2Nat.id i). apply IH, H, in_seq. lia.
+  - apply andb_true_iff in H. destruct H. intros [|]; auto.
+  - apply andb_true_iff in H. destruct H. intros [|]; auto.
+  - apply andb_true_iff in H. destruct H. intros [|]; auto.
+  - intros i Hi. rewrite forallb_forall in H. apply IH, H, in_seq. lia.
+  - apply andb_true_iff in H. destruct H as [H1 H2]. split; [|auto].
+    intros i Hi. rewrite forallb_forall in H1. apply IH, H1, in_seq. lia.
+  - apply andb_true_iff in H. destruct H. intros [|]; auto.
+  - intros i Hi. rewrite forallb_forall in H. rewrite <- (N2Nat.id i). apply IH, H, in_seq. lia.
+  - apply andb_true_iff in H. destruct H. intros [|]; auto.
+Qed.
